@@ -193,6 +193,8 @@ pub struct Run {
     stop: AtomicBool,
     recheck: AtomicBool,
     conformance_literals: usize,
+    /// true when invoked with --replay: nothing on disk (evidence, replay files) may be touched
+    replay_mode: bool,
     model_vectors: Mutex<Option<std::thread::JoinHandle<Option<usize>>>>,
     extra: Mutex<Map<String, Value>>,
 }
@@ -321,6 +323,7 @@ impl Run {
             stop: AtomicBool::new(false),
             recheck: AtomicBool::new(false),
             conformance_literals: lits,
+            replay_mode: matches!(inv, Invocation::Replay(_)),
             model_vectors: Mutex::new(Some(vectors)),
             extra: Mutex::new(Map::new()),
         };
@@ -559,6 +562,27 @@ impl Run {
             loop {
                 std::thread::sleep(Duration::from_secs(1));
             }
+        }
+        if self.replay_mode {
+            // a replay that went through the ordinary reporting path (drivers that re-run a tiny sub-domain):
+            // print the verdict only; evidence and replay files on disk stay as the exploring run left them
+            if let Some(m) = self.machinery_error.lock().unwrap().clone() {
+                machinery_exit(&m);
+            }
+            let unmatched = self.unmatched.lock().unwrap().clone();
+            for (id, (cnt, ex)) in self.known_seen.lock().unwrap().iter() {
+                if let Some(ex) = ex {
+                    println!("KNOWN-FINDING: property={} id={} occurrences={} case={}", self.prop, id, cnt, ex.case);
+                }
+            }
+            if unmatched.is_empty() {
+                println!("REPLAY-OK property={} : no violation", self.prop);
+                std::process::exit(0);
+            }
+            for v in unmatched.iter().take(10) {
+                println!("VIOLATION property={} replay=(replayed) site={} class={} case={} expected={} observed={}", self.prop, v.site, v.class, v.case, clip(&v.expected), clip(&v.observed));
+            }
+            std::process::exit(1);
         }
         let total = *self.total.lock().unwrap();
         let subs = self.subs.lock().unwrap();
